@@ -58,9 +58,10 @@ theorem ownedLookup_gUpsert (upd : Int → Int → Int) (n : Nat) (kk : Labels) 
 
 theorem gUpsert_mem (upd : Int → Int → Int) (n : Nat) (kk : Labels) (v : Int) (g : Nat) (l : List GEntry) :
     ∀ e ∈ gUpsert upd n kk v g l,
-      (∃ e0 ∈ l, e0.name = e.name ∧ e0.key = e.key ∧ e0.group = e.group) ∨ e.group = g := by
+      (∃ e0 ∈ l, e0.name = e.name ∧ e0.key = e.key ∧ e0.group = e.group) ∨
+        (e.group = g ∧ e.name = n ∧ e.key = kk) := by
   induction l with
-  | nil => intro e he; simp [gUpsert] at he; subst he; right; rfl
+  | nil => intro e he; simp [gUpsert] at he; subst he; right; exact ⟨rfl, rfl, rfl⟩
   | cons e0 rest ih =>
     intro e he
     unfold gUpsert at he
@@ -195,12 +196,12 @@ theorem collOK_after_create (colls : List (Nat × Fam)) (vecs : List Vec) (n0 : 
 
 /-- the invariant of a group's part `all` of a batch while it is being applied. -/
 structure ReplInv (common : Labels) (g : Nat) (all : List Op) (s : State) : Prop where
-  own : ∀ op ∈ all, ∀ e ∈ s.gentries, (e.name, e.key) = opIdent common op → e.group = g
+  own : ∀ op ∈ all, op.action ≠ "expire" → ∀ e ∈ s.gentries, (e.name, e.key) = opIdent common op → e.group = g
   coll : ∀ op ∈ all, op.action ≠ "expire" → collOK s.colls s.vecs op.name (opFam op) = true
 
 theorem ReplInv.expire {common : Labels} {g : Nat} {all : List Op} {s : State} (h : ReplInv common g all s) :
     ReplInv common g all (expireGroup s g) :=
-  ⟨fun op hop e he hid => h.own op hop e (List.mem_filter.mp he).1 hid, h.coll⟩
+  ⟨fun op hop hx e he hid => h.own op hop hx e (List.mem_filter.mp he).1 hid, h.coll⟩
 
 /-- the effect of one write of the batch part on the grouped entries, and the invariant. -/
 theorem ReplInv.write {common : Labels} {g : Nat} {all : List Op} {s : State} (h : ReplInv common g all s)
@@ -228,10 +229,10 @@ theorem ReplInv.write {common : Labels} {g : Nat} {all : List Op} {s : State} (h
       simp [ha, groupedGaugeSet, hs', opUpd, hb]
   simp only [hshape, hge, true_and]
   constructor
-  · intro op' hop' e he hid
+  · intro op' hop' hx' e he hid
     rcases gUpsert_mem _ _ _ _ _ _ e he with ⟨e0, he0, h1, h2, h3⟩ | hgr
-    · rw [← h3]; exact h.own op' hop' e0 he0 (by rw [h1, h2]; exact hid)
-    · exact hgr
+    · rw [← h3]; exact h.own op' hop' hx' e0 he0 (by rw [h1, h2]; exact hid)
+    · exact hgr.1
   · intro op' hop' hx'
     have hok' := h.coll op' hop' hx'
     simp only [hve]
@@ -315,9 +316,103 @@ theorem foldl_written (common : Labels) (g : Nat) (all : List Op) (hp : PartOK g
         · exact Or.inl h
       rw [hw.1, written_step_lookup common acc op v hx hval hact k]
       have hown : ∀ e ∈ s.gentries, (e.name, e.key) = (op.name, gkey (mergeLabels op.labels common)) → e.group = g :=
-        fun e he hid => hinv.own op hop e he (by simpa [opIdent] using hid)
+        fun e he hid => hinv.own op hop hx e he (by simpa [opIdent] using hid)
       rw [ownedLookup_gUpsert _ _ _ _ _ _ hown k]
       simp only [opIdent, hacc]
       by_cases hk : k = (op.name, gkey (mergeLabels op.labels common)) <;> simp [hk]
+
+/-! ### several groups in one batch -/
+
+/-- one vault call made for another group `g2` keeps the invariant of `g`'s part, provided it does
+not address a series `g`'s part writes and agrees with it on the type of shared names. -/
+theorem ReplInv.vault_call {common : Labels} {g : Nat} {all : List Op} {s : State} (h : ReplInv common g all s)
+    (g2 : Nat) (hg : g2 ≠ g) (f : Fam) (upd : Int → Int → Int) (n : Nat) (key : Labels) (v : Int)
+    (hdisj : ∀ op ∈ all, op.action ≠ "expire" → opIdent common op ≠ (n, key))
+    (hsame : ∀ op ∈ all, op.action ≠ "expire" → op.name = n → opFam op = f) :
+    ReplInv common g all
+      (match getOrCreateColl s n f with
+       | none => s
+       | some s' => { s' with gentries := gUpsert upd n key v g2 s'.gentries }) := by
+  cases hc : getOrCreateColl s n f with
+  | none => exact h
+  | some s' =>
+    obtain ⟨hge, hve, _, hco⟩ := getOrCreateColl_some hc
+    constructor
+    · intro op hop hx e he hid
+      simp only [hge] at he
+      rcases gUpsert_mem _ _ _ _ _ _ e he with ⟨e0, he0, h1, h2, h3⟩ | ⟨_, hn, hk⟩
+      · rw [← h3]; exact h.own op hop hx e0 he0 (by rw [h1, h2]; exact hid)
+      · exact absurd (by rw [← hid, hn, hk]) (hdisj op hop hx)
+    · intro op hop hx
+      have hok := h.coll op hop hx
+      simp only [hve]
+      rcases hco with hco | ⟨hnone, hco⟩
+      · rw [hco]; exact hok
+      · rw [hco]
+        exact collOK_after_create _ _ _ _ hnone _ _ (hsame op hop hx) hok
+
+/-- what the operations of the other groups must satisfy relative to `g`'s part `all`. -/
+structure OtherOK (common : Labels) (all : List Op) (ops2 : List Op) : Prop where
+  valid : ∀ op ∈ ops2, validOp op = true
+  norm : ∀ op ∈ ops2, Normalized op
+  gne : ∀ op ∈ ops2, op.group ≠ 0
+  disj : ∀ op2 ∈ ops2, op2.action ≠ "expire" → ∀ op ∈ all, op.action ≠ "expire" →
+    opIdent common op ≠ opIdent common op2
+  same : ∀ op2 ∈ ops2, op2.action ≠ "expire" → ∀ op ∈ all, op.action ≠ "expire" → op.name = op2.name →
+    op.action = op2.action
+
+theorem ReplInv.other_op {common : Labels} {g : Nat} {all : List Op} {s : State} (h : ReplInv common g all s)
+    (g2 : Nat) (hg : g2 ≠ g) (op2 : Op) (hv : validOp op2 = true) (hn : Normalized op2) (hg2 : op2.group ≠ 0)
+    (hdisj : op2.action ≠ "expire" → ∀ op ∈ all, op.action ≠ "expire" → opIdent common op ≠ opIdent common op2)
+    (hsame : op2.action ≠ "expire" → ∀ op ∈ all, op.action ≠ "expire" → op.name = op2.name → op.action = op2.action) :
+    ReplInv common g all (applyGroupOp common g2 s op2) := by
+  by_cases hx : op2.action = "expire"
+  · have hx' : (op2.action == "expire") = true := by simpa using hx
+    have e1 : applyGroupOp common g2 s op2 = expireGroup s g2 := by simp [applyGroupOp, hx']
+    rw [e1]
+    exact ⟨fun op hop hx e he hid => h.own op hop hx e (List.mem_filter.mp he).1 hid, h.coll⟩
+  · obtain ⟨v, _, hstep⟩ := applyGroupOp_write common g2 s op2 hv hn hg2 hx
+    rw [hstep]
+    by_cases ha : op2.action = "add"
+    · simp only [ha, if_true, groupedCounterAdd]
+      refine h.vault_call g2 hg .counter counterUpd _ _ v (hdisj hx) ?_
+      intro op hop hxo hname
+      have := hsame hx op hop hxo hname
+      simp [opFam, this, ha]
+    · simp only [ha, if_false, groupedGaugeSet]
+      refine h.vault_call g2 hg .gauge gaugeUpd _ _ v (hdisj hx) ?_
+      intro op hop hxo hname
+      have := hsame hx op hop hxo hname
+      have hb : (op2.action == "add") = false := by simpa using ha
+      simp [opFam, this, hb]
+
+theorem ReplInv.other_group {common : Labels} {g : Nat} {all : List Op} {s : State} (h : ReplInv common g all s)
+    (g2 : Nat) (hg : g2 ≠ g) (ops2 : List Op) (hok : OtherOK common all ops2) :
+    ReplInv common g all (applyGroupOperations common s g2 ops2) := by
+  unfold applyGroupOperations
+  have h0 : ReplInv common g all (expireGroup s g2) :=
+    ⟨fun op hop hx e he hid => h.own op hop hx e (List.mem_filter.mp he).1 hid, h.coll⟩
+  generalize expireGroup s g2 = s0 at h0
+  induction ops2 generalizing s0 with
+  | nil => exact h0
+  | cons op2 rest ih =>
+    simp only [List.foldl_cons]
+    refine ih ⟨fun o ho => hok.valid o (List.mem_cons_of_mem _ ho), fun o ho => hok.norm o (List.mem_cons_of_mem _ ho),
+      fun o ho => hok.gne o (List.mem_cons_of_mem _ ho), fun o ho => hok.disj o (List.mem_cons_of_mem _ ho),
+      fun o ho => hok.same o (List.mem_cons_of_mem _ ho)⟩ _ ?_
+    exact h0.other_op g2 hg op2 (hok.valid op2 (by simp)) (hok.norm op2 (by simp)) (hok.gne op2 (by simp))
+      (hok.disj op2 (by simp)) (hok.same op2 (by simp))
+
+/-- after `g`'s part was applied, the parts of other groups leave what `g` owns as it is. -/
+theorem ownedLookup_other_group (common : Labels) (s : State) (g g2 : Nat) (hg : g2 ≠ g) (all ops2 : List Op)
+    (hid : IdIn s.gentries g (writeIdents common all)) (hok : OtherOK common all ops2) :
+    owned (applyGroupOperations common s g2 ops2).gentries g = owned s.gentries g := by
+  apply applyGroupOperations_owned_other common s g2 g ops2 hg
+  intro op2 hop2 hx2 e he hEq
+  have hmem := hid e he
+  simp only [writeIdents, List.mem_map, List.mem_filter] at hmem
+  obtain ⟨op, ⟨hop, hxo⟩, hident⟩ := hmem
+  have hxo' : op.action ≠ "expire" := by simpa using hxo
+  exact hok.disj op2 hop2 hx2 op hop hxo' (by rw [hident, hEq])
 
 end ShellOp.Metrics
